@@ -387,29 +387,39 @@ def resolvedOf (r : Option Reloc.Entry) (sym : Nat → SymOut) : TQ.Resolved :=
       calcValue := if (sym e.symbol.toNat).ret then
         TQ.relCalc e.type (sym e.symbol.toNat).attrs.value e.addend e.offset else 0 }
 
-/-- the relocation record C18's query model reads on a ready relocation section is the one of `reloc_reports_spec` -/
+/-- the relocation record C18's query model reads on a relocation section with C07's invariant whose content is the
+    section's file bytes and whose header fields are the specification's -/
+theorem tq_relGet_core (img : Bytes) (i : Nat) (b1 : SecBuf) (kind : Spec.RelKind)
+    (hinv : b1.Inv) (hcont : b1.content = secFileBytes img i) (hcls : b1.cls = clsOf img)
+    (hst : b1.stype.toNat = sh img i "sh_type") (hes : b1.entSize.toNat = sh img i "sh_entsize")
+    (hsz : b1.size.toNat = sh img i "sh_size") (hgd : b1.getData = b1) (hdata : (secData b1).isNone = false)
+    (hty : sh img i "sh_type" = relShType kind)
+    (hent : Spec.entSize (clsOf img) kind ≤ sh img i "sh_entsize") (k : BitVec 64) :
+    ∃ r, TQ.relGet (encOf img) b1 k = .ok r ∧ r.map Reloc.Entry.toSpec = specReloc img i kind k.toNat := by
+  have hRS : C11.RelocSec (clsOf img) kind b1 :=
+    ⟨hinv, hcls, by
+      apply (stype_of_toNat _ _ (hst.trans hty)).trans
+      cases kind <;> rfl, by rw [hes]; exact hent⟩
+  by_cases hk : k.toNat < sh img i "sh_size" / sh img i "sh_entsize"
+  · obtain ⟨e, he, hs⟩ := C11.get_refines (clsOf img) kind (encOf img) b1 hRS k (by rw [hsz, hes]; exact hk)
+    rw [hgd] at he
+    refine ⟨some e, tq_relGet_eq (clsOf img) kind (encOf img) b1 b1 _ hRS hdata k he, ?_⟩
+    simp only [Option.map_some, specReloc, hk, if_true, hs, hcont, hes]
+  · refine ⟨none, tq_relGet_eq (clsOf img) kind (encOf img) b1 b1 _ hRS hdata k
+      (C11.get_invalid (encOf img) b1 k (by rw [hsz, hes]; omega)), ?_⟩
+    simp only [Option.map_none, specReloc, hk, if_false]
+
 theorem tq_relGet_ready (img : Bytes) (hwf : WellFormedImage img) (i : Nat) (hi : i < eh img "e_shnum") (b1 : SecBuf)
     (hR1 : SecReady img i b1) (kind : Spec.RelKind) (hty : sh img i "sh_type" = relShType kind)
     (hent : Spec.entSize (clsOf img) kind ≤ sh img i "sh_entsize") (k : BitVec 64) :
     ∃ r, TQ.relGet (encOf img) b1 k = .ok r ∧ r.map Reloc.Entry.toSpec = specReloc img i kind k.toNat := by
   have hocc : occupiesFile (sh img i "sh_type") = true := by rw [hty]; cases kind <;> decide
   obtain ⟨hinv, hcont⟩ := hR1.inv hocc
-  have hRS : C11.RelocSec (clsOf img) kind b1 :=
-    ⟨hinv, hR1.cls, by
-      apply (stype_of_toNat _ _ (hR1.stype.trans hty)).trans
-      cases kind <;> rfl, by rw [hR1.entSize]; exact hent⟩
   have hdata : (secData b1).isNone = false := by
     unfold secData; rw [hR1.getData]
     have := (hR1.resident hocc).2
     cases hd : b1.data <;> simp_all
-  by_cases hk : k.toNat < sh img i "sh_size" / sh img i "sh_entsize"
-  · obtain ⟨e, he, hs⟩ := C11.get_refines (clsOf img) kind (encOf img) b1 hRS k (by rw [hR1.size, hR1.entSize]; exact hk)
-    rw [hR1.getData] at he
-    refine ⟨some e, tq_relGet_eq (clsOf img) kind (encOf img) b1 b1 _ hRS hdata k he, ?_⟩
-    simp only [Option.map_some, specReloc, hk, if_true, hs, hcont, hR1.entSize]
-  · refine ⟨none, tq_relGet_eq (clsOf img) kind (encOf img) b1 b1 _ hRS hdata k
-      (C11.get_invalid (encOf img) b1 k (by rw [hR1.size, hR1.entSize]; omega)), ?_⟩
-    simp only [Option.map_none, specReloc, hk, if_false]
+  exact tq_relGet_core img i b1 kind hinv hcont hR1.cls hR1.stype hR1.entSize hR1.size hR1.getData hdata hty hent k
 
 /-- **reloc_resolved_reports_spec** : for a relocation section `i` as in `reloc_reports_spec` (SHT_REL / SHT_RELA,
     `sizeof(Rel/Rela) ≤ sh_entsize`) whose `(Elf_Half) sh_link` names a symbol table of the file as in
@@ -716,6 +726,115 @@ example (k : Nat) (kind : StreamKind) (isLazy : Bool) (rp : LoadRes)
       (out = none ∨ out = (Spec.tableEntry (encOf exImg) 2 (secFileBytes exImg 8) idx.toNat).map (BitVec.ofNat 16)) := by
   obtain ⟨o1, out, h, _, h'⟩ := prefix_versym_sound exImg k rp.obj
     (prefixLoadedC_of_load exImg exImg_wf {} rfl k kind isLazy rp hp hok) 8 (by decide +kernel) (by decide +kernel)
+    (by decide +kernel) (by decide +kernel) idx
+  exact ⟨o1, out, h, h'⟩
+
+/-! #### notes on a truncated file -/
+
+/-- the note accessor on a source without data: no notes, every `get_note` refused -/
+theorem note_nodata (e : Enc) (src : NoteSrc) (h : src.data = none) :
+    Note.process e src = .ok [] ∧ ∀ k : BitVec 32, Note.get e src [] k = .ok none := by
+  constructor
+  · simp only [Note.process, h, note_walk_empty, Option.isNone_none, Bool.true_or, if_true]; rfl
+  · intro k
+    have : note_get_gate k (BitVec.ofNat 64 ([] : List (BitVec 64)).length) = true := by
+      simp [note_get_gate, BitVec.ule]
+    simp only [Note.get, this, if_true]; rfl
+
+/-- **prefix_notes_sound** (C17 for `note_section_accessor`): on a prefix of a well-formed image that loads, for a
+    section `i` whose bytes in the COMPLETE file are the gABI encoding of the notes `ns` (as in `notes_reports_spec`),
+    the accessor reports either no note at all — `get_notes_num() = 0` and every `get_note(k)` refused (the
+    section's data is not in the prefix) — or exactly the complete file's notes: `get_notes_num() = |ns|` and
+    `get_note(k)` = the `k`-th note for EVERY 32-bit `k`.  Never a partial or different list. -/
+theorem prefix_notes_sound (img : Bytes) (k : Nat) (o : Obj) (hP : PrefixLoadedC img k o) (i : Nat)
+    (hi : i < eh img "e_shnum") (ns : List Spec.Note) (hf : ∀ n ∈ ns, n.Fits)
+    (hbytes : secFileBytes img i = Spec.encodeNotes (encOf img) ns) (hsz : sh img i "sh_size" ≤ 4294967293)
+    (idx : BitVec 32) :
+    ∃ o1 n out, inspect o (.noteNum i) = .ok (o1, .num n) ∧ inspect o (.note i idx) = .ok (o1, .note out) ∧
+      PrefixLoadedC img k o1 ∧
+      ((n = 0 ∧ out = none) ∨ (n = ns.length ∧ out = specNote ns idx.toNat)) := by
+  obtain ⟨o1, b1, h1, hP1, hR, hLS, _, _⟩ := prefix_secResident_c img k o hP i hi
+  have henc : o1.enc = encOf img := hP1.base.enc
+  cases hd : b1.data with
+  | none =>
+    obtain ⟨p1, p2⟩ := note_nodata (encOf img) b1.noteSrc (by simp only [SecBuf.noteSrc]; exact hd)
+    refine ⟨o1, 0, none, ?_, ?_, hP1, Or.inl ⟨rfl, rfl⟩⟩
+    · simp only [inspect, h1, henc, p1]; rfl
+    · simp only [inspect, h1, henc, p1, p2 idx]; rfl
+  | some d =>
+    obtain ⟨hF, hocc, hinv, hcont, hlen, hgd, hdata⟩ := pready_inv hR hLS hd
+    have hview : b1.view = secFileBytes img i := by
+      rcases hR.data with hn | ⟨_, _, hv, _⟩
+      · rw [hn] at hd; cases hd
+      · exact hv
+    have hok : C13.SrcOk b1.noteSrc := by
+      intro a ha
+      have : b1.data = some a := ha
+      have := hLS.len a this
+      simp only [SecBuf.noteSrc] at *
+      omega
+    have hv : C13.NoteSrc.view b1.noteSrc = Spec.encodeNotes (encOf img) ns := by
+      rw [← hbytes, ← hview]; rfl
+    obtain ⟨pos, hp, hn, hg⟩ := note_source_reports (encOf img) b1.noteSrc hok
+      (by simp only [SecBuf.noteSrc]; rw [hF.size]; exact hsz) ns hf hv
+    refine ⟨o1, ns.length, specNote ns idx.toNat, ?_, ?_, hP1, Or.inr ⟨rfl, rfl⟩⟩
+    · simp only [inspect, h1, henc, hp, hn]; rfl
+    · simp only [inspect, h1, henc, hp, hg idx]; rfl
+
+example (k : Nat) (kind : StreamKind) (isLazy : Bool) (rp : LoadRes)
+    (hp : load {} { data := exImg.take k, kind := kind } isLazy = .ok rp) (hok : rp.ok = true) (idx : BitVec 32) :
+    ∃ o1 n out, inspect rp.obj (.noteNum 6) = .ok (o1, .num n) ∧ inspect rp.obj (.note 6 idx) = .ok (o1, .note out) ∧
+      ((n = 0 ∧ out = none) ∨ (n = 2 ∧ out = specNote exNotes idx.toNat)) := by
+  obtain ⟨o1, n, out, g1, g2, _, g3⟩ := prefix_notes_sound exImg k rp.obj
+    (prefixLoadedC_of_load exImg exImg_wf {} rfl k kind isLazy rp hp hok) 6 (by decide +kernel) exNotes (by decide)
+    (by decide +kernel) (by decide +kernel) idx
+  exact ⟨o1, n, out, g1, g2, g3⟩
+
+/-! #### relocations on a truncated file -/
+
+/-- relocation `get_entry` on a section without data: refused (the null-data guards of fixes/15) -/
+theorem tq_relGet_nodata (enc : Enc) (b : SecBuf) (h : (secData b).isNone = true) (k : BitVec 64) :
+    TQ.relGet enc b k = .ok none := by
+  have hg : ∀ ops nd, (nd true = true) → TQ.relGetGeneric ops nd enc b k = .ok none := by
+    intro ops nd hnd
+    unfold TQ.relGetGeneric
+    split
+    · rfl
+    · rw [h, hnd]; rfl
+  unfold TQ.relGet
+  rw [Reloc.entriesNum_ok]
+  simp only []
+  (repeat' split) <;> first | rfl | exact hg _ _ rfl
+
+/-- **prefix_reloc_sound** (C17 for `relocation_section_accessor`): on a prefix of a well-formed image that loads, for
+    a relocation section `i` as in `reloc_reports_spec`, `get_entry(k, offset, symbol, type, addend)` is for EVERY
+    64-bit `k` refused (false, out-parameters untouched), or exactly the record the specification reads in the
+    COMPLETE file (`specReloc img i kind k` = what the complete file's load reports: `reloc_reports_spec`). -/
+theorem prefix_reloc_sound (img : Bytes) (k : Nat) (o : Obj) (hP : PrefixLoadedC img k o) (i : Nat)
+    (hi : i < eh img "e_shnum") (kind : Spec.RelKind) (hty : sh img i "sh_type" = relShType kind)
+    (hent : Spec.entSize (clsOf img) kind ≤ sh img i "sh_entsize") (idx : BitVec 64) :
+    ∃ o1 out, TQ.runQuery o (.relGet i idx) = .ok (o1, .rel out) ∧ PrefixLoadedC img k o1 ∧
+      (out = none ∨ out.map Reloc.Entry.toSpec = specReloc img i kind idx.toNat) := by
+  obtain ⟨o1, b1, h1, hP1, hR, hLS, hcls, _⟩ := prefix_secResident_c img k o hP i hi
+  have hs : TQ.settle o i = some (o1, b1) := h1
+  cases hd : b1.data with
+  | none =>
+    have hn : (secData b1).isNone = true := by rw [pready_secData hR, hd]; rfl
+    refine ⟨o1, none, ?_, hP1, Or.inl rfl⟩
+    simp only [TQ.runQuery, hs, tq_relGet_nodata _ b1 hn idx, TQ.liftQ]; rfl
+  | some d =>
+    obtain ⟨hF, hocc, hinv, hcont, hlen, hgd, hdata⟩ := pready_inv hR hLS hd
+    obtain ⟨r, hr, hspec⟩ := tq_relGet_core img i b1 kind hinv hcont hcls hF.stype hF.entSize hF.size hgd hdata
+      hty hent idx
+    refine ⟨o1, r, ?_, hP1, Or.inr hspec⟩
+    simp only [TQ.runQuery, hs, hP.base.enc, hr, TQ.liftQ]; rfl
+
+example (k : Nat) (kind : StreamKind) (isLazy : Bool) (rp : LoadRes)
+    (hp : load {} { data := exImg.take k, kind := kind } isLazy = .ok rp) (hok : rp.ok = true) (idx : BitVec 64) :
+    ∃ o1 out, TQ.runQuery rp.obj (.relGet 4 idx) = .ok (o1, .rel out) ∧
+      (out = none ∨ out.map Reloc.Entry.toSpec = specReloc exImg 4 .rela idx.toNat) := by
+  obtain ⟨o1, out, h, _, h'⟩ := prefix_reloc_sound exImg k rp.obj
+    (prefixLoadedC_of_load exImg exImg_wf {} rfl k kind isLazy rp hp hok) 4 (by decide +kernel) .rela
     (by decide +kernel) (by decide +kernel) idx
   exact ⟨o1, out, h, h'⟩
 
